@@ -217,4 +217,57 @@ theorem binds_exactly_where_prescribed (root : Str) (tops : List Str) :
               subst hx
               simp [hb, this]
 
+/-! ## one_bind_per_node -/
+
+theorem lower_instanceID : lowerAscii "instanceID".toList = "instanceid".toList := by decide
+
+/-- **one_bind_per_node.**  Whenever the model produces an XForm, the nodesets of its bind elements
+    are pairwise distinct: every node has at most one bind (and, with
+    `binds_exactly_where_prescribed`, exactly one iff its row or type prescribes one).  For all
+    row lists, all nestings. -/
+theorem one_bind_per_node (root : Str) (ks : List RK) (bs : List Bind)
+    (h : bindsOfRows root ks = .ok bs) : (bs.map (·.path)).Nodup := by
+  unfold bindsOfRows at h
+  simp only at h
+  split at h
+  · cases h
+  next hnames =>
+  split at h
+  · cases h
+  split at h
+  · cases h
+  split at h
+  · cases h
+  next es hw =>
+  split at h
+  · cases h
+  next bs' hr =>
+  simp only [Out.ok.injEq] at h
+  subst h
+  refine (renderAll_paths _ _ _ _ hr).nodup ?_
+  apply nodup_of_map (fun p => p.getLast?)
+  rw [List.map_map]
+  show ((es ++ [instanceID root]).map (fun e => e.path.getLast?)).Nodup
+  rw [List.map_append, walk_lasts root ks [] es hw]
+  simp only [Bool.or_eq_true, Bool.not_eq_true', decide_eq_false_iff_not, not_or, Bool.not_eq_true,
+    Decidable.not_not] at hnames
+  obtain ⟨hnd, hres⟩ := hnames
+  have hn : (ks.flatMap rkNames).Nodup := nodup_of_map lowerAscii _ hnd
+  rw [List.nodup_append]
+  refine ⟨List.Pairwise.map some (fun a b hab e => hab (Option.some.inj e)) hn, by simp, ?_⟩
+  intro a ha b hb
+  simp only [List.map_cons, List.map_nil, List.mem_singleton] at hb
+  subst hb
+  obtain ⟨n, hn1, rfl⟩ := List.mem_map.mp ha
+  intro e
+  have e' : n = "instanceID".toList := Option.some.inj e
+  subst e'
+  have : ((ks.flatMap rkNames).map lowerAscii).any (reservedNames root).contains = true := by
+    rw [List.any_eq_true]
+    refine ⟨lowerAscii "instanceID".toList, List.mem_map.mpr ⟨_, hn1, rfl⟩, ?_⟩
+    rw [lower_instanceID]
+    simp [reservedNames]
+  rw [this] at hres
+  cases hres
+
 end Pyxv.C05
